@@ -9,6 +9,7 @@ import Sth.Model.Conc
 import Sth.Model.Rate
 import Sth.Model.ConcPools
 import Sth.Model.Store
+import Sth.Model.FreeConc
 
 namespace Driver.Sched
 open Sth Driver
@@ -391,6 +392,53 @@ def poolsTrack (c : PSim) (programs : List (String × List String)) (ev : String
     else c
   | _ => c
 
+/-! ### replay of the real schedule on the freelist hand-over model Sth/Model/FreeConc.lean
+
+Events of the model are the sections the real threads completed: a freelist Put follows the release of a Put from
+[store.put.index_done] (the update path) and the release of a Remove from [store.remove.index_done] when the call goes on to return
+true; Flush's two sections end at [freelist.flush.swapped] / [freelist.flush.written]; ToGC's at [freelist.togc.closed] / [.renamed] /
+[.reopened]; the collector's read of the hand-over file ends at [primary.gc.fl.applied], its removal at [primary.gc.fl.removed]. The
+state the schedule starts from (entries in the pool, the file and the hand-over file, reported by the harness) is built by a prefix of
+model events. Compared: every event is ENABLED in the model (lock free, pool empty or not, file present), and the three counts after
+the schedule. `C13_handover_replay_exactly_once` then speaks about this very run. -/
+def freePrefix (c prep : Nat) (p f g : Int) : List (Nat × String) :=
+  let puts (n : Int) (base : Nat) : List (Nat × String) := (List.range n.toNat).map fun i => (prep, s!"put:{base + i}")
+  let fl (n : Int) : List (Nat × String) := if n > 0 then [(prep, "flush.swapped"), (prep, "flush.written")] else []
+  (if g ≥ 0 then puts g 1000000 ++ fl g ++ [(c, "togc.closed"), (c, "togc.renamed"), (c, "togc.reopened")] else []) ++
+  puts f 2000000 ++ fl f ++ puts p 3000000
+
+def freeEvents (names : List String) (evs : List String) : List (Nat × String) :=
+  let idx (t : String) : Nat := (names.findIdx? (· == t)).getD names.length
+  let n := evs.length
+  let arr := evs.toArray
+  (List.range n).filterMap fun j =>
+    let ev := arr[j]!
+    match ev.splitOn ":" with
+    | [t, "go", pt] =>
+      if pt == "store.put.index_done" then some (idx t, s!"put:{j}")
+      else if pt == "store.remove.index_done" then
+        -- the Remove records its location iff Index.Remove removed the entry, which is what the call returns
+        let later := (evs.drop (j + 1)).find? fun e => match e.splitOn ":" with | [t', "ret", _, _] => t' == t | _ => false
+        match later.map (·.splitOn ":") with
+        | some [_, _, _, "true"] => some (idx t, s!"put:{j}")
+        | _ => none
+      else none
+    | _ =>
+      match ev.splitOn "@" with
+      | [t, "freelist.flush.swapped"] => some (idx t, "flush.swapped")
+      | [t, "freelist.flush.written"] => some (idx t, "flush.written")
+      | [t, "freelist.togc.closed"] => some (idx t, "togc.closed")
+      | [t, "freelist.togc.renamed"] => some (idx t, "togc.renamed")
+      | [t, "freelist.togc.reopened"] => some (idx t, "togc.reopened")
+      | [t, "primary.gc.fl.applied"] => some (idx t, "apply")
+      | [t, "primary.gc.fl.removed"] => some (idx t, "remove")
+      | _ => none
+
+def parts (s : String) : Option (Int × Int × Int) :=
+  match (s.splitOn ":").map String.toInt? with
+  | [some p, some f, some g] => some (p, f, g)
+  | _ => none
+
 def isMutator (op : String) : Bool := op.startsWith "put:" || op.startsWith "rm:"
 def keyOfOp (op : String) : String := ((op.splitOn ":").drop 1).headD ""
 def isGC (op : String) : Bool := op.startsWith "pgc" || op.startsWith "igc"
@@ -570,7 +618,32 @@ def step (st : St) (l : Line) : St × List Msg :=
         (if c.s.file.length > 0 then [Msg.flag "pools-model-flushed"] else []),
        if c.bad.isEmpty then some c.s else none)
     let _ := poolsFinal
-    let flags := concMsgs ++ rateMsgs ++ poolsMsgs ++ [Msg.flag "schedule"] ++
+    -- (7) the freelist hand-over model run on the same schedule
+    let freeMsgs : List Msg :=
+      let names := st.programs.map (·.1)
+      let eligible := !(l.args.get "locks" = "1") && (ra.get "stuck") == "" &&
+        !(evs.any fun e => (e.splitOn ":blocked:").length > 1 || (e.splitOn ":free:").length > 1 || e.startsWith "flusher@" ||
+          e.endsWith "@primary.gc.reloc.put")
+      match eligible, parts (ra.get "fl0"), parts (ra.get "fl1") with
+      | true, some (p0, f0, g0), some (p1, f1, g1) =>
+        let coll := (names.findIdx? (· == "g")).getD (names.length + 1)
+        let fes := freeEvents names evs
+        if fes.isEmpty then [] else
+        match FreeConc.replay (freePrefix coll (names.length + 2) p0 f0 g0 ++ fes) with
+        | none =>
+          -- find the first event the model refuses
+          let pre := freePrefix coll (names.length + 2) p0 f0 g0
+          let k := ((List.range (fes.length + 1)).find? fun k => (FreeConc.replay (pre ++ fes.take k)).isNone).getD 0
+          [Msg.corr s!"freelist hand-over model: event {k} of {fes.length} ({(fes.getD (k - 1) (0, "?")).2} by thread {(fes.getD (k - 1) (0, "?")).1}) is not enabled in the model (start {ra.get "fl0"})"]
+        | some s =>
+          let mp : Int := s.pool.length
+          let mf : Int := match s.file with | some f => (f.length : Int) | none => -1
+          let mg : Int := match s.gc with | some g => (g.length : Int) | none => -1
+          if (mp, mf, mg) = (p1, f1, g1) ∧ s.flushLock.isNone ∧ s.dropped.isEmpty then
+            [Msg.flag "freelist-model-agrees"] ++ (if fes.any (·.2 == "togc.renamed") then [Msg.flag "freelist-model-handover"] else [])
+          else [Msg.corr s!"freelist hand-over model: after the schedule the model has pool:file:gc = {mp}:{mf}:{mg}, the store {ra.get "fl1"}"]
+      | _, _, _ => []
+    let flags := concMsgs ++ rateMsgs ++ poolsMsgs ++ freeMsgs ++ [Msg.flag "schedule"] ++
       (if evs.any (·.startsWith "window:open") then [Msg.flag "collector-window"] else []) ++
       (if evs.any (·.startsWith "window:open:f@") then [Msg.flag "flush-window"] else []) ++
       (if evs.any (fun e => (e.splitOn ":blocked:").length > 1) then [Msg.flag "thread-blocked"] else []) ++
